@@ -21,7 +21,7 @@ func init() {
 			"unit bodies: EVERY body of 1-7 bytes (thorough: 8) over {00,01,03,FF} that is legal inside a NAL unit (no 00 00 00 / 00 00 01, no trailing 00) as a type-5 unit between two other units, 3- and 4-byte start codes, MTU {5,100}",
 			"second instance: in the wide scenario every case also runs with an unrelated second H264Payloader (holding an SPS, fed fragmented units in between) and H264Packet (holding an unfinished FU-A unit) whose calls are interleaved with those of the instances under test",
 			"runs of 60 calls on one payloader and one depacketizer, cycling through a pattern of 2, 3, 5 or 7 access units (SPS+PPS+IDR, a slice of MTU+1 bytes, a small slice, an AUD plus a slice, SPS+PPS alone, two small slices, a slice of 3*MTU bytes) for MTU {8,100,1200}",
-			"decoder side: F bit 0, FU-A trains of 2-4 fragments with every split point of units of up to 8 bytes",
+			"decoder side: F bit 0, FU-A trains of 2-5 fragments with every split point of units of up to 8 bytes, also with an empty first, middle or last fragment",
 		},
 		Scenarios: []mc.Scenario{
 			{Name: "payloader-to-depacketizer", Tiers: "qt", ShardDepth: 4, Run: c10Roundtrip},
@@ -395,6 +395,16 @@ func c10Group_(c *mc.Ctx, reduced bool, idx int) c10Group {
 		}
 		if len(cuts) == 0 {
 			cuts = []int{1} // at least two fragments
+		}
+		// RFC 6184 5.8: an FU payload MAY be empty - an encoder that cuts fixed-size chunks
+		// produces one at the start (cut at 0), in the middle (a repeated cut) or at the end
+		switch c.Pick(4) {
+		case 1:
+			cuts = append([]int{0}, cuts...)
+		case 2:
+			cuts = append(cuts, cuts[len(cuts)-1])
+		case 3:
+			cuts = append(cuts, body)
 		}
 		return c10Group{payloads: ref.H264Fragment(u, cuts), units: [][]byte{u}, kind: fmt.Sprintf("fua%d", len(cuts)+1)}
 	}
